@@ -13,7 +13,7 @@ TABLE = {
     "C04": (["eras", "bank", "zeroing", "corners", "align"], ["staking", "rates", "admission"], [1], True, "balances (per-asset supply is their column sum)"),
     "C06": (["dups", "corners", "gaps"], ["eras", "bank"], [1, 6, 9, 10], True, "balances, batch status, holding and relation rows"),
     "C07": (["gaps", "corners", "avgzero"], ["eras", "admission", "bank"], [1, 6, 7, 9], True, "balances, execution height and converted amounts"),
-    "C08": (["malformed", "dups", "corners"], ["eras", "top100", "zerocollide", "bankmixed"], [13, 14], False, "which blocks apply"),
+    "C08": (["malformed", "dups", "corners", "gaps"], ["eras", "top100", "zerocollide", "bankmixed"], [13, 14], False, "which blocks apply"),
     "C09": (["gaps"], ["eras", "admission", "avgzero"], [1, 6, 7], True, "balances and converted amounts (pricing)"),
     "C11": (["eras", "corners"], ["top100", "rates", "staking", "zeroing"], [1, 6, 7, 11, 12], True, "PEG/pFCT balances, coinbase and burn history, pn_winners, pn_grade"),
     "C12": (["rates", "corners", "eras"], ["gaps", "staking"], [4, 6], True, "pn_rate rows and batch status"),
@@ -33,34 +33,34 @@ def pairs(ctx, prop, extra=()):
     return [(s, sd) for s in scen for sd in chainrun.seeds_for(ctx, n)]
 
 
-def retried(ctx, scenarios):
+def retried(ctx, scenarios, stmts=("pn_sync_version",)):
     """Every block applied twice by the same process: the first attempt at each height fails at its last statement
     (the pn_sync_version insert of InsertSynced), DBlockSync rolls back and retries.  What the failed attempt left
     in the daemon's memory must not reach the ledger: the final dump equals that of the fault-free run."""
     import vlib
     found = False
     cov = ctx.coverage.setdefault("correspondence", {}).setdefault("every block retried once (same process) vs fault-free run", {})
-    for sc in scenarios:
+    for sc, stmt in [(sc, st) for sc in scenarios for st in stmts]:
         if sc in NO_RETRY:
             continue
         try:
-            recs, summary = runprop.run(ctx, "retryall", "scen:" + sc, ctx.seed, [])
+            recs, summary = runprop.run(ctx, "retryall", "scen:" + sc, ctx.seed, ["-stmt", stmt])
         except vlib.TieBroken as e:
             ctx.add_violation("the retry-every-block run could not be made on scenario %s: %s" % (sc, str(e)[:400]),
                               {"kind": "retryall", "scenario": sc, "seed": ctx.seed, "error": str(e)[:1500]}, name="retryall-broken", found_input=False)
             found = True
             continue
-        cov[sc] = {"retried_blocks": summary.get("retried_blocks"), "violations": summary.get("violations")}
+        cov[sc + " @ " + stmt] = {"retried_blocks": summary.get("retried_blocks"), "violations": summary.get("violations")}
         ctx.coverage["traces_validated_against_impl"] = ctx.coverage.get("traces_validated_against_impl", 0) + 1
         ctx.coverage["evaluations"] = ctx.coverage.get("evaluations", 0) + int(summary.get("retried_blocks") or 0)
         for r in recs:
             if r.get("cmd") == "retryall" and r.get("ok") is False:
                 what = ("the daemon cannot get through the chain when every block fails once: %s" % str(r.get("error"))[:300]) if r.get("stuck") else \
                        ("the ledger differs from the fault-free run: %s" % str((r.get("diff") or {}).get("only_got", ""))[:300])
-                ctx.add_violation("a failed and retried block changes the result (scenario %s seed %d, every block's first attempt fails at its last statement): %s"
-                                  % (sc, ctx.seed, what),
+                ctx.add_violation("a failed and retried block changes the result (scenario %s seed %d, every block's first attempt fails at its first statement on %s): %s"
+                                  % (sc, ctx.seed, stmt, what),
                                   {"kind": "retryall", "scenario": sc, "seed": ctx.seed, "record": dict((k, v) for k, v in r.items() if k != "dumps"),
-                                   "replay_cmd": "harness: runprop retryall -work <dir> -scenario scen:%s -seed %d" % (sc, ctx.seed)}, name="retryall")
+                                   "replay_cmd": "harness: runprop retryall -work <dir> -scenario scen:%s -seed %d -stmt %s" % (sc, ctx.seed, stmt)}, name="retryall")
                 found = True
     return found
 
